@@ -61,12 +61,24 @@ def run(ctx):
         cmds, scripts = [], []
         for _ in range(n):
             k = rng.random()
-            if k < 0.5:
+            if k < 0.3:
                 cmds.append(("ping", cmd_ping()))
-            elif k < 0.8:
+            elif k < 0.55:
                 cmds.append(("query", cmd_query(b"q"))); scripts.append("q done 1 1")
-            else:
+            elif k < 0.7:
                 cmds.append(("close", cmd_close(rng.randint(1, 3))))
+            elif k < 0.8:
+                # probes the library answers itself
+                cmds.append(("query", cmd_query(rng.choice([b"SELECT @@max_allowed_packet", b"select @@version_comment limit 1",
+                                                            b"SELECT @@wait_timeout", b"select @@session.tx_isolation"]))))
+            elif k < 0.86:
+                cmds.append(("query", cmd_query(rng.choice([b"USE `db`;", b"use x"])))); scripts.append("i ok")
+            elif k < 0.91:
+                cmds.append(("init", cmd_init(b"db"))); scripts.append("i ok")
+            elif k < 0.95:
+                cmds.append(("fieldlist", cmd_field_list(b"t\x00")))
+            else:
+                cmds.append(("prepare", cmd_prepare(b"p"))); scripts.append("p reply 2 0 0")
         return cmds, scripts
     for depth in range(1, 9):
         for _ in range(3 if ctx.quick() else 30):
